@@ -3,6 +3,7 @@ package layoutb
 import (
 	"fmt"
 	"math"
+	"regexp"
 	"sort"
 	"strconv"
 	"strings"
@@ -15,8 +16,10 @@ import (
 
 // A sequence-diagram spec is "a=<actors>;A=<actor variant>;j=<nl|semi>;w=<root|box>;S=<stmt>|<stmt>|…"
 // stmt: "m <src> <dst> <L|->"  message (L = with a label), endpoints are a<i>, a<i>.s (span), a<i>.s.t (nested span)
-//       "n <actor>"            note on that actor
-//       "g{" … "}"             group around the statements in between
+//
+//	"n <actor>"            note on that actor
+//	"g{" … "}"             group around the statements in between
+//
 // Everything the oracle expects is derived from the spec, nothing from d2's own data structures.
 type seqSpec struct {
 	actors  int
@@ -120,15 +123,77 @@ func topActor(endpoint string) string {
 	return endpoint
 }
 
+// Actor naming scheme "prefix" (spec variants 10..13): the actors a0..a4 are written ab, a, abc, b, bc in the D2 text, so
+// that one actor's name is a string prefix of another's in both message directions. The exported ids are mapped back to
+// a0..a4 before the checks, which therefore stay independent of the names.
+var prefixNames = []string{"ab", "a", "abc", "b", "bc"}
+var actorTokRe = regexp.MustCompile(`\ba([0-4])\b`)
+
+func renameActors(src string) string {
+	return actorTokRe.ReplaceAllStringFunc(src, func(m string) string { return prefixNames[m[1]-'0'] })
+}
+
+func unrenamePath(id string) string {
+	parts := strings.Split(id, ".")
+	k := 0
+	if len(parts) > 1 && parts[0] == "sd" {
+		k = 1
+	}
+	for i, n := range prefixNames {
+		if parts[k] == n {
+			parts[k] = fmt.Sprintf("a%d", i)
+			break
+		}
+	}
+	return strings.Join(parts, ".")
+}
+
+var connIDRe = regexp.MustCompile(`^(.*)\((.*) (<?->?|--) (.*)\)\[(\d+)\]$`)
+
 func c23Oracle(in string) eng.Res {
 	s, err := parseSeqSpec(in)
 	if err != nil {
 		return eng.Bad("harness:bad-spec", err.Error())
 	}
 	src := s.source()
+	renamed := s.variant >= 10
+	if renamed {
+		s.variant -= 10
+		src = renameActors(s.source())
+	}
 	diagram, _, err := layoutD2(src)
 	if err != nil {
 		return eng.Bad(errClass(err), err.Error()+"\n"+src)
+	}
+	if renamed {
+		for i := range diagram.Shapes {
+			diagram.Shapes[i].ID = unrenamePath(diagram.Shapes[i].ID)
+		}
+		for i := range diagram.Connections {
+			c := &diagram.Connections[i]
+			c.Src, c.Dst = unrenamePath(c.Src), unrenamePath(c.Dst)
+			if m := connIDRe.FindStringSubmatch(c.ID); m != nil {
+				// the id's endpoints are relative to the scope prefix m[1]: map the absolute endpoints and cut the prefix again
+				scope := strings.TrimSuffix(m[1], ".")
+				rel := func(e string) string {
+					abs := e
+					if scope != "" {
+						abs = scope + "." + e
+					}
+					return strings.TrimPrefix(unrenamePath(abs), func() string {
+						if scope == "" {
+							return ""
+						}
+						return unrenamePath(scope) + "."
+					}())
+				}
+				pre := ""
+				if scope != "" {
+					pre = unrenamePath(scope) + "."
+				}
+				c.ID = fmt.Sprintf("%s(%s %s %s)[%s]", pre, rel(m[2]), m[3], rel(m[4]), m[5])
+			}
+		}
 	}
 	prefix := ""
 	if s.wrap == "box" {
@@ -319,7 +384,7 @@ func init() {
 	eng.Register(&eng.Check{
 		ID: "C23", Level: "exploration", HangBound: 120 * time.Second,
 		QuickBudget: 110 * time.Second, ThoroughBudget: 24 * time.Minute,
-		Rule: "every sequence-diagram spec of the phase (actors a0..a(n-1) declared first; statement lists = all sequences up to the phase's length over the phase's alphabet of messages {src->dst incl. self, labelled/unlabelled, endpoints = actors, spans a.s, nested spans a.s.t}, notes, and a group around every contiguous statement range; long cyclic lists of 13 and 30 messages; one statement per line or all on one line) is rendered to D2 text and laid out through d2lib.Compile (d2sequence via LayoutNested; dagre only when the diagram is nested in a container); checked on the exported shapes and connections; expectations are derived from the spec alone; non-trivial = at least one message",
+		Rule: "every sequence-diagram spec of the phase (actors a0..a(n-1) declared first, in two phases written with names that are string prefixes of one another: ab, a, abc; statement lists = all sequences up to the phase's length over the phase's alphabet of messages {src->dst incl. self, labelled/unlabelled, endpoints = actors, spans a.s, nested spans a.s.t}, notes, and a group around every contiguous statement range; long cyclic lists of 13 and 30 messages; one statement per line or all on one line) is rendered to D2 text and laid out through d2lib.Compile (d2sequence via LayoutNested; dagre only when the diagram is nested in a container); checked on the exported shapes and connections; expectations are derived from the spec alone; non-trivial = at least one message",
 		Assumptions: []string{
 			"actors are rectangles with inside labels (shapes with outside-bottom labels such as person/image are aligned by their label bottoms, which the statement's 'common baseline' does not describe)",
 			"'on the lifeline' = within 1 px of the x of the actor's exported lifeline connection and within its vertical extent; 'on the span' = within 1 px of one of the span's vertical sides and within its vertical extent",
@@ -345,6 +410,28 @@ func init() {
 					}
 				})
 			}
+			// P1b the same plain messages with actor names that are string prefixes of one another
+			for a := 2; a <= 3; a++ {
+				a := a
+				w.Phase(fmt.Sprintf("plain actors=%d messages<=3, prefix-related actor names", a), func() {
+					al := plainAlphabet(a)
+					for k := 1; k <= 3; k++ {
+						u.Seqs(al, k, func(s []string) { ev(a, 10, "nl", "root", s) })
+					}
+				})
+			}
+			w.Phase("spans actors=2 endpoints=5 messages<=2, prefix-related actor names", func() {
+				ends := []string{"a0", "a1", "a0.s", "a0.s.t", "a1.s"}
+				var al []string
+				for _, s := range ends {
+					for _, d := range ends {
+						al = append(al, "m "+s+" "+d+" -")
+					}
+				}
+				for k := 1; k <= 2; k++ {
+					u.Seqs(al, k, func(s []string) { ev(2, 10, "nl", "root", s) })
+				}
+			})
 			// P2 spans and nested spans
 			spanPhase := func(a, maxLen int, ends []string) {
 				w.Phase(fmt.Sprintf("spans actors=%d endpoints=%d messages<=%d", a, len(ends), maxLen), func() {
